@@ -22,8 +22,15 @@ RULE = ('product family x source x window x n_T x T_mid-form x T_ref-position (f
         'from_model: 2-deviation product in quick, complete in thorough), each fitted object walked over '
         'a 101-point temperature lattice plus both neighbours of every break; a case is non-trivial when '
         'its branch vector (anchoring branch, source kind, T_mid form, number of segments) differs from '
-        'that of the default case (single polynomial, T_mid None, T_ref in the first segment)')
+        'that of the default case (single polynomial, T_mid None, T_ref in the first segment). Parts C / D: '
+        'call HISTORIES on caller-owned data (fit, fit again from the very same objects, look at the first fit '
+        'again, overwrite the results, edit Cp/R in place, fit once more) enumerated over row order x container / '
+        'dtype x source x second call (complete) and, deviation-bounded, window, T_mid form, T_ref position and '
+        'type; every fit of a history is judged by the oracles of parts A / B')
 ASSUMPTIONS = [
+    'parts C / D (histories): tables have integer-valued temperatures (so that integer containers hold the same '
+    'table); row orders are ascending, descending, second-half-first, two interleaved scans, middle-outwards, '
+    'every row twice, whole table twice; containers are float64 / int64 arrays and lists of float / int',
     'temperature windows, n_T, T_mid forms, T_ref positions and sources are the finite alphabets listed in bounds',
     'same-family data: NASA-7/NASA-9 reproduce to 1e-8*(1+|v|); Shomate to 1e-6*(1+|v|) because its Cp fit is '
     'an iterative Levenberg-Marquardt run (scipy curve_fit, default ftol=xtol=1e-8; measured 3e-9)',
@@ -117,6 +124,20 @@ PLANNED_TAGS = [
     'src:single', 'src:piecewise', 'src:statmech', 'src:constCp', 'src:zeroCp',
     'entry:from_data', 'entry:from_model',
 ] + ['sh:units=%s' % u for u in UNITS]
+# parts C / D (histories on caller-owned data); the alphabets are defined with the parts below
+PLANNED_TAGS += (
+    ['form:order=%s' % o for o in ('asc', 'desc', 'rot', 'evenodd', 'midout', 'dup', 'dupcat')]
+    + ['form:cont=%s' % c_ for c_ in ('f8', 'i8', 'list', 'ilist')]
+    + ['form:second=%s' % x for x in ('same', 'ref', 'opt')]
+    + ['form:tref_type=%s' % x for x in ('float', 'int', 'elem')]
+    + ['form:n7 T_mid=%s' % x for x in ('none', 'scalar', 'int', 'list', 'tuple', 'array', 'iarray')]
+    + ['form:n9 T_mid=%s' % x for x in ('list2', 'none', 'scalar', 'int', 'list0', 'list1', 'tuple2', 'array1',
+                                        'iarray2')]
+    + ['form:integer T array', 'form:integer CpoR array']
+    + ['mform:argtype=%s' % x for x in ('float', 'int')]
+    + ['mform:second=%s' % x for x in ('same', 'species', 'window')]
+    + ['mform:%s T_mid=%s' % (f, x) for f in ('n7', 'n9')
+       for x in ('none', 'scalar', 'int', 'list', 'tuple', 'array', 'iarray')])
 
 
 # ------------------------------------------------------------------------------------ helpers
@@ -148,8 +169,8 @@ def core_hash(case):
     return core.hkey({k: case.get(k) for k in keys})
 
 
-def _lattice(win, breaks):
-    pts = [float(t) for t in np.linspace(win[0], win[1], N_LATTICE)]
+def _lattice(win, breaks, n=None):
+    pts = [float(t) for t in np.linspace(win[0], win[1], n or N_LATTICE)]
     for b in breaks:
         b = float(b)
         pts += [float(np.nextafter(b, 0.0)), b, float(np.nextafter(b, 1e9))]
@@ -224,8 +245,8 @@ def _walk(obj, pts):
     return np.array(cp), np.array(h), np.array(s)
 
 
-def _reproduction(fam, obj, pieces, win, breaks, T_ref, href, sref, sig, case, ctx):
-    pts = _lattice(win, breaks)
+def _reproduction(fam, obj, pieces, win, breaks, T_ref, href, sref, sig, case, ctx, n_lattice=None):
+    pts = _lattice(win, breaks, n_lattice)
     cp, h, s = _walk(obj, pts)
     ctx.evals(3 * len(pts))
     ctx.trans(len(pts) - 1)
@@ -248,7 +269,7 @@ def _pieces_for(case):
     """Generating polynomial pieces (with the generating breaks) for a from_data case."""
     fam, win, n_T, src = case['fam'], case['win'], case['n_T'], case['src']
     names = src.split('|')
-    polys = [POLYS[fam][n] for n in names]
+    polys = [_poly(fam, n) for n in names]
     if len(names) == 1:
         return rp.single(polys[0])
     form = case['tmid']
@@ -384,6 +405,18 @@ def _eval_data_case(case, ctx):
         return                               # this T_ref position does not exist for this T_mid form
     obj = _fit_data(case, T, CpoR, T_ref, href, sref)
     ctx.trace()
+    br = _judge_data_fit(fam, obj, pieces, T, win, T_ref, href, sref, sig, case, ctx)
+    key = dict(case)
+    if ctx.state(('data', key)):
+        if (br, _source_kind(case), case['tmid'], case.get('units')) != DEFAULT_VECTOR[fam]:
+            ctx.nontrivial(('data', key))
+
+
+def _judge_data_fit(fam, obj, pieces, T_rows, win, T_ref, href, sref, sig, case, ctx, n_lattice=None):
+    """Every clause a from_data fit must satisfy: coefficient length, bounds, anchor, continuity and -
+    where the data determine the fit - reproduction of the generating polynomial(s).  T_rows are the
+    temperatures of the table as the caller tabulated them (any order, repeats allowed)."""
+    T_rows = np.asarray(T_rows, dtype=float)
     breaks = _breaks_of(fam, obj)
     br = _branch(fam, breaks, T_ref)
     sig = dict(sig, branch=br)
@@ -391,17 +424,14 @@ def _eval_data_case(case, ctx):
         ctx.tag('n7:' + br)
     elif fam == 'N9':
         ctx.tag('n9:T_ref ' + ('at break' if br == 'at break' else 'in ' + br))
-    key = dict(case)
-    if ctx.state(('data', key)):
-        if (br, _source_kind(case), case['tmid'], case.get('units')) != DEFAULT_VECTOR[fam]:
-            ctx.nontrivial(('data', key))
-    _common_clauses(fam, obj, T, T_ref, href, sref, sig, case, ctx)
+    _common_clauses(fam, obj, T_rows, T_ref, href, sref, sig, case, ctx)
     # same-family reproduction, where the data determine the fit
     gen_breaks = [u for u, _ in pieces if not math.isinf(u)]
     determined = True
     if fam == 'N9':
         edges = [win[0]] + breaks + [win[1]]
-        counts = [int(np.sum((T > a) & (T <= b))) for a, b in zip(edges, edges[1:])]
+        T_dist = np.unique(T_rows)              # a repeated row adds no information
+        counts = [int(np.sum((T_dist > a) & (T_dist <= b))) for a, b in zip(edges, edges[1:])]
         if min(counts) < 7:
             determined = False
             ctx.tag('n9:underdetermined (reproduction skipped)')
@@ -411,7 +441,8 @@ def _eval_data_case(case, ctx):
         elif fam == 'N7':
             ctx.tag('n7:piecewise break recovered')
     if determined:
-        _reproduction(fam, obj, pieces, win, breaks, T_ref, href, sref, sig, case, ctx)
+        _reproduction(fam, obj, pieces, win, breaks, T_ref, href, sref, sig, case, ctx, n_lattice)
+    return br
 
 
 # --------------------------------------------------------------------------- part B: from_model
@@ -578,6 +609,17 @@ def _eval_model_case(case, ctx):
     model = build_species(name)
     obj = _fit_model(case, model)
     ctx.trace()
+    _judge_model_fit(fam, win, name, case['n_T'], obj, model, sig, case, ctx)
+    key = dict(case)
+    if ctx.state(('model', key)):
+        if case != default_model_case(fam):
+            ctx.nontrivial(('model', key))
+
+
+def _judge_model_fit(fam, win, name, n_T, obj, model, sig, case, ctx, n_lattice=None):
+    """Every clause a from_model fit must satisfy (win: the T_low / T_high handed to from_model)."""
+    kind = _species_kind(name)
+    win = [float(win[0]), float(win[1])]
     # documented reference temperature of from_model
     T_ref = win[0] if fam == 'N9' else (win[0] + win[1]) / 2.0
     href = float(np.squeeze(model.get_HoRT(T=T_ref)))
@@ -589,25 +631,21 @@ def _eval_model_case(case, ctx):
         ctx.tag('n7:' + br)
     elif fam == 'N9':
         ctx.tag('n9:T_ref ' + ('at break' if br == 'at break' else 'in ' + br))
-    key = dict(case)
-    if ctx.state(('model', key)):
-        if case != default_model_case(fam):
-            ctx.nontrivial(('model', key))
     # the data from_model generates span exactly [T_low, T_high]
     _common_clauses(fam, obj, np.array(win), T_ref, href, sref, sig, case, ctx)
     if kind in ('constCp', 'zeroCp'):
         cp0 = float(np.squeeze(model.get_CpoR(T=T_ref)))
         pieces = rp.single({0: cp0})
-        _reproduction(fam, obj, pieces, win, breaks, T_ref, href, sref, sig, case, ctx)
+        _reproduction(fam, obj, pieces, win, breaks, T_ref, href, sref, sig, case, ctx, n_lattice)
         return
-    pts = _lattice(win, breaks)
+    pts = _lattice(win, breaks, n_lattice)
     cp, h, s = _walk(obj, pts)
     mcp, mh, ms = _model_lattice(name, model, pts)
     ctx.evals(6 * len(pts))
     ctx.trans(len(pts) - 1)
     edges = [win[0]] + sorted(breaks) + [win[1]]
     e_star = _best_form_error(fam, name, model, edges)
-    bound = TRACK_FACTOR[case['n_T']] * e_star + TRACK_FLOOR
+    bound = TRACK_FACTOR[n_T] * e_star + TRACK_FLOOR
     T = np.array(pts)
     dcp = np.abs(cp - mcp)
     # where in its segment the largest Cp error sits (part of the signature)
@@ -730,15 +768,548 @@ def _data_cases(fam, tier):
     return cases
 
 
+# ----------------------------------------------------- part C: input forms and call histories
+# (added after seeded changes C03-w3s1 / C03-w3s2, see notes/C03.md)
+#
+# A case of part C ('forms': from_data) or part D ('mforms': from_model) is a whole HISTORY on the real
+# code, carried by the case itself:
+#
+#   build the caller's table (T, Cp/R) in a given row order and container / dtype, keep deep copies
+#   fit 1 (configuration A)          -> table unchanged?  every clause of a from_data fit on fit 1
+#   fit 2 from the very same objects (same call / other reference / other option)
+#                                    -> table unchanged?  every clause on fit 2, and again on fit 1
+#   overwrite the coefficient arrays of fit 1 and fit 2 (results are fresh containers)
+#   edit Cp/R in place (+1)          -> fit 3 (configuration A) obeys every clause for the NEW content
+#
+# The oracles are the ones of parts A / B (reference handed in, min / max of the table, closed-form
+# integrals of the generating polynomial, the source model) - never "what the previous fit returned".
+FORM_LATTICES = [[300.0, 1000.0, 36], [100.0, 3000.0, 30], [500.0, 2000.0, 16]]   # integer-valued rows
+N_LATTICE_FORMS = 25
+ORDERS = ['asc', 'desc', 'rot', 'evenodd', 'midout', 'dup', 'dupcat']
+CONTAINERS = ['f8', 'i8', 'list', 'ilist']
+SECOND_CALLS = ['same', 'ref', 'opt']
+TREF_TYPES = ['float', 'int', 'elem']
+FORM_POLYS = {'int4': {0: 4.0}}                 # constant Cp/R = 4: representable in an integer array
+FORM_SRC = {'N7': ['h2o_lo', 'zero', 'int4', 'h2o_lo|h2o_hi'],
+            'N9': ['mix', 'zero', 'int4', 'mix|mix2', 'mix|e0|mix2'],
+            'SH': ['h2o', 'zero', 'int4']}
+FORM_TMID = {'N7': ['none', 'scalar', 'int', 'list', 'tuple', 'array', 'iarray'],
+             'N9': ['list2', 'none', 'scalar', 'int', 'list0', 'list1', 'tuple2', 'array1', 'iarray2'],
+             'SH': ['n/a']}
+FORM_TREF = {'N7': ['q1', 'T_low', 'mid', 'q3', 'T_high'],
+             'N9': ['q1', 'T_low', 'b1', 'half', 'T_high'],
+             'SH': ['q1', 'T_low', 'half', 'T_high']}
+N9_FORM_BREAKS = {'none': 0, 'list0': 0, 'scalar': 1, 'int': 1, 'list1': 1, 'array1': 1, 'list2': 2,
+                  'tuple2': 2, 'iarray2': 2}
+_RUN_SIG = {}                                   # signature of the running history (step label kept current)
+
+
+def _poly(fam, name):
+    return FORM_POLYS[name] if name in FORM_POLYS else POLYS[fam][name]
+
+
+def _row_order(order, n):
+    """Row permutation (with repeats for 'dup*') of an ascending table of n rows."""
+    idx = list(range(n))
+    h = n // 2
+    if order == 'asc':
+        return idx
+    if order == 'desc':
+        return idx[::-1]
+    if order == 'rot':                     # second half first: extrema in the middle of the table
+        return idx[h:] + idx[:h]
+    if order == 'evenodd':                 # two interleaved scans
+        return idx[::2] + idx[1::2]
+    if order == 'midout':                  # from the middle outwards, alternating sides
+        return [(h + (-1) ** k * ((k + 1) // 2)) % n for k in range(n)]
+    if order == 'dup':                     # every row listed twice (ties), ascending
+        return [i for i in idx for _ in (0, 1)]
+    if order == 'dupcat':                  # the whole table appended to itself
+        return idx + idx
+    raise ValueError(order)
+
+
+def _container(values, kind, integer):
+    """The caller's container: float64 array, int64 array, list of floats, list of ints.  Integer
+    forms are used only where every value is integer-valued (integer=True), else the float form."""
+    vals = [float(v) for v in values]
+    as_int = integer and all(v == int(v) for v in vals)
+    if kind == 'f8':
+        return np.array(vals, dtype=np.float64)
+    if kind == 'i8':
+        return np.array([int(v) for v in vals], dtype=np.int64) if as_int else np.array(vals, dtype=np.float64)
+    if kind == 'list':
+        return list(vals)
+    if kind == 'ilist':
+        return [int(v) for v in vals] if as_int else list(vals)
+    raise ValueError(kind)
+
+
+def _snapshot(x):
+    """(type name, dtype, element type names, values) - everything 'left as it was' means."""
+    if isinstance(x, np.ndarray):
+        return ['ndarray', str(x.dtype), list(x.shape), x.tolist()]
+    if isinstance(x, (list, tuple)):
+        return [type(x).__name__, [type(v).__name__ for v in x], [v for v in x]]
+    return [type(x).__name__, repr(x)]
+
+
+def _form_tmid_values(fam, form, win):
+    """Break temperature(s) named by a T_mid form (floats; the int forms are rounded first)."""
+    third, two = _frac(win, 1.0 / 3.0), _frac(win, 2.0 / 3.0)
+    if fam == 'N7':
+        if form == 'none':
+            return None
+        if form == 'scalar':
+            return third
+        if form == 'int':
+            return float(int(round(third)))
+        vals = [_frac(win, f) for f in LIST_FRACTIONS]
+        return [float(int(round(v))) for v in vals] if form == 'iarray' else vals
+    if fam == 'N9':
+        n = N9_FORM_BREAKS[form]
+        vals = [third, two][:n]
+        if form in ('int', 'iarray2'):
+            vals = [float(int(round(v))) for v in vals]
+        return vals
+    return None
+
+
+def _form_tmid_arg(fam, form, win):
+    v = _form_tmid_values(fam, form, win)
+    if fam == 'SH' or form == 'none':
+        return None
+    if form == 'scalar':
+        return v if fam == 'N7' else v[0]
+    if form == 'int':
+        return int(v) if fam == 'N7' else int(v[0])
+    if form in ('list', 'list0', 'list1', 'list2'):
+        return list(v)
+    if form in ('tuple', 'tuple2'):
+        return tuple(v)
+    if form in ('array', 'array1'):
+        return np.array(v, dtype=np.float64)
+    if form in ('iarray', 'iarray2'):
+        return np.array([int(x) for x in v], dtype=np.int64)
+    raise ValueError(form)
+
+
+def _form_pieces(case, shift=0.0):
+    """Generating pieces of a forms case; shift is added to the constant term of every piece."""
+    fam, win, n_T = case['fam'], case['win'], case['n_T']
+    names = case['src'].split('|')
+    polys = []
+    for n in names:
+        p = dict(_poly(fam, n))
+        p[0] = p.get(0, 0.0) + shift
+        polys.append(p)
+    if len(polys) == 1:
+        return rp.single(polys[0])
+    v = _form_tmid_values(fam, case['tmid'], win)
+    if fam == 'N7':
+        if v is None:                       # the break is a data point the screen can reach
+            T = np.linspace(win[0], win[1], n_T)
+            gb = [float(T[min(max(n_T // 3, 5), n_T - 6)])]
+        elif isinstance(v, list):
+            gb = [v[LIST_TRUE]]
+        else:
+            gb = [v]
+    else:
+        gb = list(v)
+    return rp.piecewise(polys, gb)
+
+
+def _form_fit(case, tm_arg, units, T, CpoR, T_ref, href, sref):
+    """One from_data call; tm_arg is the caller's T_mid object (handed over as it is, not rebuilt)."""
+    fam = case['fam']
+    kw = dict(name='c03', T=T, CpoR=CpoR, T_ref=T_ref, HoRT_ref=href, SoR_ref=sref)
+    if fam == 'SH':
+        kw['units'] = units
+    else:
+        kw['T_mid'] = tm_arg
+    return _class(fam).from_data(**kw)
+
+
+def _typed_tref(value, ttype, T_container):
+    """T_ref as a Python float, a Python int (rounded) or an element of the caller's T container."""
+    if ttype == 'float':
+        return float(value)
+    if ttype == 'int':
+        return int(round(value))
+    k = int(np.argmin(np.abs(np.asarray(T_container, dtype=float) - value)))
+    return T_container[k]
+
+
+_SIG_ORDER = {'asc': 'ascending', 'desc': 'not ascending', 'rot': 'not ascending', 'evenodd': 'not ascending',
+              'midout': 'not ascending', 'dup': 'repeated rows', 'dupcat': 'repeated rows'}
+_SIG_CONT = {'f8': 'float array', 'i8': 'integer array', 'list': 'list', 'ilist': 'list',
+             'float': 'float bounds', 'int': 'integer bounds'}
+
+
+def _sig_forms(case):
+    """Signature of a history case: categorical and coarse (row order: ascending / not ascending /
+    repeated rows; container: float array / integer array / list; step of the history)."""
+    if case['part'] == 'forms':
+        src = case['src']
+        kind = 'zeroCp' if src == 'zero' else 'piecewise' if '|' in src else 'single'
+        return {'fam': case['fam'], 'entry': 'from_data', 'source': kind, 'tmid': case['tmid'],
+                'order': _SIG_ORDER[case['order']], 'container': _SIG_CONT[case['cont']], 'step': 'fit 1'}
+    return {'fam': case['fam'], 'entry': 'from_model', 'source': _species_kind(case['species']),
+            'tmid': case['tmid'], 'container': _SIG_CONT[case['argtype']], 'step': 'fit 1'}
+
+
+def _step(sig, label):
+    _RUN_SIG['step'] = label                # an exception raised from now on carries this step
+    return dict(sig, step=label)
+
+
+def _scribble(fam, obj):
+    """Overwrite what a fit returned (the next fit must not care)."""
+    if fam == 'N7':
+        obj.a_low[:] = 1e9
+        obj.a_high[:] = -1e9
+    elif fam == 'N9':
+        for n in obj.nasas:
+            n.a[:] = 1e9
+        del obj.nasas[:]
+    else:
+        obj.a[:] = 1e9
+
+
+def _second_config(case):
+    """(tmid form, units, reference tag) of the second fit."""
+    fam, second = case['fam'], case['second']
+    tmid, units = case['tmid'], case.get('units')
+    if second == 'opt':
+        if fam == 'SH':
+            units = UNITS[(UNITS.index(units) + 5) % len(UNITS)]
+        else:
+            forms = FORM_TMID[fam]
+            if fam == 'N9' and '|' in case['src']:      # piecewise data keep their number of breaks
+                forms = [f for f in forms if N9_FORM_BREAKS[f] == N9_FORM_BREAKS[tmid]]
+            tmid = forms[(forms.index(tmid) + 1) % len(forms)]
+    return tmid, units
+
+
+def _eval_forms_case(case, ctx):
+    fam, win, n_T = case['fam'], case['win'], case['n_T']
+    sig = _sig_forms(case)
+    _RUN_SIG.clear()
+    _RUN_SIG.update(sig)
+    kind = sig['source']
+    ctx.tag('entry:from_data')
+    ctx.tag('src:' + kind)
+    for k_ in ('order', 'cont', 'second', 'tref_type'):
+        ctx.tag('form:%s=%s' % (k_, case[k_]))
+    ctx.tag('form:%s T_mid=%s' % (fam.lower(), case['tmid']))
+    if fam == 'SH':
+        ctx.tag('sh:units=%s' % case['units'])
+    key = dict(case)
+    if ctx.state(('forms', key)) and case != default_forms_case(fam):
+        ctx.nontrivial(('forms', key))
+    # ---- the caller's table
+    pieces = _form_pieces(case)
+    T_asc = np.linspace(win[0], win[1], n_T)
+    rows = _row_order(case['order'], n_T)
+    T_vals = [float(T_asc[i]) for i in rows]
+    Cp_vals = [rp.cp_pw(pieces, t) for t in T_vals]
+    T = _container(T_vals, case['cont'], True)
+    CpoR = _container(Cp_vals, case['cont'], True)
+    if isinstance(T, np.ndarray) and T.dtype == np.int64:
+        ctx.tag('form:integer T array')
+    if isinstance(CpoR, np.ndarray) and CpoR.dtype == np.int64:
+        ctx.tag('form:integer CpoR array')
+    tm = _form_tmid_arg(fam, case['tmid'], win)       # the caller's T_mid object, reused by fits 1 and 3
+    tmid2, units2 = _second_config(case)
+    tm2 = tm if tmid2 == case['tmid'] else _form_tmid_arg(fam, tmid2, win)
+    snap = [_snapshot(T), _snapshot(CpoR), _snapshot(tm), _snapshot(tm2)]
+    href, sref = _ref_values(case)
+
+    def untouched(sg):
+        now = [_snapshot(T), _snapshot(CpoR), _snapshot(tm), _snapshot(tm2)]
+        ctx.true("caller's data: the T, CpoR and T_mid containers handed to from_data are left as they were",
+                 now == snap, sg, case,
+                 observed=[now[0][-1][:4], now[1][-1][:4], now[2][-1], now[3][-1]],
+                 expected=[snap[0][-1][:4], snap[1][-1][:4], snap[2][-1], snap[3][-1]])
+
+    # ---- where T_ref goes (as in part A: NASA-7 chooses its break from the Cp data alone)
+    if fam == 'N9':
+        planned = _form_tmid_values(fam, case['tmid'], win)
+    elif fam == 'N7' and case['tref'] == 'mid':
+        pre = _form_fit(case, tm, None, T, CpoR, win[0], href, sref)
+        ctx.trace()
+        planned = _breaks_of(fam, pre)
+        untouched(_step(sig, 'preliminary fit'))
+    else:
+        planned = []
+    t_val = _tref_value(case, planned)
+    if t_val is None:
+        t_val = _frac(win, 0.25)            # no such break for this T_mid form: the default position
+    T_ref = _typed_tref(t_val, case['tref_type'], T)
+    # ---- fit 1
+    # (a step that records a violation ends the history: the later steps would repeat the same defect
+    #  under other step labels; the label then names the FIRST step that goes wrong)
+    n0 = _nviol(ctx)
+    sg = _step(sig, 'fit 1')
+    obj1 = _form_fit(case, tm, case.get('units'), T, CpoR, T_ref, href, sref)
+    ctx.trace()
+    untouched(sg)
+    _judge_data_fit(fam, obj1, pieces, T_vals, win, float(T_ref), href, sref, sg, case, ctx, N_LATTICE_FORMS)
+    if _nviol(ctx) != n0:
+        return
+    # ---- fit 2 from the very same objects
+    sg2 = _step(sig, 'fit 2')
+    if case['second'] == 'ref':
+        T_ref2 = _typed_tref(_frac(win, 0.75), case['tref_type'], T)
+        href2, sref2 = _ref_values(dict(case, tmid=case['tmid'] + '#2'))
+    else:
+        T_ref2, href2, sref2 = T_ref, href, sref
+    obj2 = _form_fit(case, tm2, units2, T, CpoR, T_ref2, href2, sref2)
+    ctx.trace()
+    untouched(sg2)
+    _judge_data_fit(fam, obj2, pieces, T_vals, win, float(T_ref2), href2, sref2, sg2, case, ctx, N_LATTICE_FORMS)
+    if _nviol(ctx) != n0:
+        return
+    _judge_data_fit(fam, obj1, pieces, T_vals, win, float(T_ref), href, sref,
+                    _step(sig, 'fit 1 again'), case, ctx, N_LATTICE_FORMS)
+    if _nviol(ctx) != n0:
+        return
+    # ---- results are fresh containers; the table edited in place is fitted for its new content
+    _scribble(fam, obj1)
+    _scribble(fam, obj2)
+    sg3 = _step(sig, 'fit 3')
+    if isinstance(CpoR, np.ndarray):
+        CpoR += 1
+    else:
+        for i in range(len(CpoR)):
+            CpoR[i] = CpoR[i] + 1
+    snap[1] = _snapshot(CpoR)
+    pieces3 = _form_pieces(case, shift=1.0)
+    obj3 = _form_fit(case, tm, case.get('units'), T, CpoR, T_ref, href, sref)
+    ctx.trace()
+    untouched(sg3)
+    _judge_data_fit(fam, obj3, pieces3, T_vals, win, float(T_ref), href, sref, sg3, case, ctx, N_LATTICE_FORMS)
+
+
+def _nviol(ctx):
+    return sum(ctx.viol_counts.values())
+
+
+# -------------------------------------------------------- part D: from_model argument forms / histories
+MFORM_SPECIES = ['H2O', 'N2', 'constCp4', 'elec_only']
+MFORM_WINDOWS = [[300, 1000], [100, 3000], [500, 2000]]
+MFORM_ARGTYPES = ['float', 'int']               # type of T_low / T_high (and of integer-valued T_mid)
+MFORM_SECOND = ['same', 'species', 'window']
+MFORM_TMID = {'N7': ['none', 'scalar', 'int', 'list', 'tuple', 'array', 'iarray'],
+              'N9': ['none', 'scalar', 'int', 'list', 'tuple', 'array', 'iarray'],
+              'SH': ['n/a']}
+
+
+def _mform_tmid_arg(case, win):
+    fam, form = case['fam'], case['tmid']
+    if fam == 'SH' or form == 'none':
+        return None
+    if fam == 'N7':
+        return _form_tmid_arg('N7', form, win)
+    if form == 'scalar':
+        return _frac(win, 0.45)
+    if form == 'int':
+        return int(round(_frac(win, 0.45)))
+    n_int = case['n_interval']
+    vals = [float(v) for v in np.linspace(win[0], win[1], n_int + 1)[1:-1] * 0.97 + 0.03 * win[0]]
+    if form == 'list':
+        return vals
+    if form == 'tuple':
+        return tuple(vals)
+    if form == 'array':
+        return np.array(vals, dtype=np.float64)
+    return np.array([int(round(v)) for v in vals], dtype=np.int64)
+
+
+def _mform_fit(case, model, win, tm):
+    fam = case['fam']
+    cls = _class(fam)
+    lo, hi = (int(win[0]), int(win[1])) if case['argtype'] == 'int' else (float(win[0]), float(win[1]))
+    if fam == 'N7':
+        return cls.from_model(model=model, name='c03', T_low=lo, T_high=hi, T_mid=tm, n_T=case['n_T'])
+    if fam == 'SH':
+        return cls.from_model(model=model, name='c03', T_low=lo, T_high=hi, n_T=case['n_T'],
+                              units=case['units'])
+    return cls.from_model(name='c03', model=model, T_low=lo, T_high=hi, T_mid=tm,
+                          n_interval=case['n_interval'], n_T=case['n_T'], fit_T_mid=case['fit_T_mid'])
+
+
+def _model_state(model):
+    import copy
+    return copy.deepcopy(model.to_dict())
+
+
+def _eval_mforms_case(case, ctx):
+    fam, win, name = case['fam'], case['win'], case['species']
+    sig = _sig_forms(case)
+    _RUN_SIG.clear()
+    _RUN_SIG.update(sig)
+    ctx.tag('entry:from_model')
+    ctx.tag('src:' + sig['source'])
+    for k_ in ('argtype', 'second'):
+        ctx.tag('mform:%s=%s' % (k_, case[k_]))
+    ctx.tag('mform:%s T_mid=%s' % (fam.lower(), case['tmid']))
+    if fam == 'SH':
+        ctx.tag('sh:units=%s' % case['units'])
+    if fam == 'N9':
+        ctx.tag('n9:fit_T_mid=%s' % case['fit_T_mid'])
+    key = dict(case)
+    if ctx.state(('mforms', key)) and case != default_mforms_case(fam):
+        ctx.nontrivial(('mforms', key))
+    model = build_species(name)
+    state0 = _model_state(model)
+    tm = _mform_tmid_arg(case, win)
+    tm_snap = _snapshot(tm)
+
+    def untouched(sg, mdl, st):
+        ctx.true("caller's data: the model and the T_mid argument handed to from_model are left as they were",
+                 _model_state(mdl) == st and _snapshot(tm) == tm_snap, sg, case,
+                 observed=_snapshot(tm), expected=tm_snap)
+
+    sg = _step(sig, 'fit 1')
+    obj1 = _mform_fit(case, model, win, tm)
+    ctx.trace()
+    untouched(sg, model, state0)
+    _judge_model_fit(fam, win, name, case['n_T'], obj1, model, sg, case, ctx, N_LATTICE_FORMS)
+    # ---- a second species / window / the same call again, in the same process
+    second = case['second']
+    name2, win2, model2 = name, win, model
+    if second == 'species':
+        name2 = MFORM_SPECIES[(MFORM_SPECIES.index(name) + 1) % len(MFORM_SPECIES)]
+        model2 = build_species(name2)
+    elif second == 'window':
+        win2 = MFORM_WINDOWS[(MFORM_WINDOWS.index(win) + 1) % len(MFORM_WINDOWS)]
+    state2 = _model_state(model2)
+    tm2 = tm if second != 'window' else _mform_tmid_arg(case, win2)
+    _RUN_SIG['source'] = _species_kind(name2)
+    sg2 = dict(_step(sig, 'fit 2'), source=_species_kind(name2))
+    obj2 = _mform_fit(case, model2, win2, tm2)
+    ctx.trace()
+    untouched(sg2, model2, state2)
+    _judge_model_fit(fam, win2, name2, case['n_T'], obj2, model2, sg2, case, ctx, N_LATTICE_FORMS)
+    _RUN_SIG['source'] = sig['source']
+    _judge_model_fit(fam, win, name, case['n_T'], obj1, model, _step(sig, 'fit 1 again'),
+                     case, ctx, N_LATTICE_FORMS)
+    # ---- results are fresh containers: a third fit of the first call does not see the scribble
+    _scribble(fam, obj1)
+    _scribble(fam, obj2)
+    sg3 = _step(sig, 'fit 3')
+    obj3 = _mform_fit(case, model, win, tm)
+    ctx.trace()
+    untouched(sg3, model, state0)
+    _judge_model_fit(fam, win, name, case['n_T'], obj3, model, sg3, case, ctx, N_LATTICE_FORMS)
+
+
+def default_forms_case(fam):
+    lat = FORM_LATTICES[0]
+    d = dict(part='forms', fam=fam, src=FORM_SRC[fam][0], win=[lat[0], lat[1]], n_T=lat[2], order='asc',
+             cont='f8', tmid=FORM_TMID[fam][0], tref=FORM_TREF[fam][0], tref_type='float', second='same')
+    if fam == 'SH':
+        d['units'] = 'J/mol/K'
+    return d
+
+
+def default_mforms_case(fam):
+    d = dict(part='mforms', fam=fam, species='H2O', win=list(MFORM_WINDOWS[0]), n_T=50, argtype='float',
+             tmid=MFORM_TMID[fam][0], second='same')
+    if fam == 'SH':
+        d['units'] = 'J/mol/K'
+    if fam == 'N9':
+        d['n_interval'] = 2
+        d['fit_T_mid'] = False
+    return d
+
+
+def _forms_alphabet(fam):
+    al = dict(src=FORM_SRC[fam], lat=[0, 1, 2], order=ORDERS, cont=CONTAINERS, tmid=FORM_TMID[fam],
+              tref=FORM_TREF[fam], tref_type=TREF_TYPES, second=SECOND_CALLS)
+    if fam == 'SH':
+        al['units'] = UNITS
+    return al
+
+
+def _valid_forms(case):
+    fam = case['fam']
+    if fam == 'N9':
+        nb = N9_FORM_BREAKS[case['tmid']]
+        if '|' in case['src'] and case['src'].count('|') != nb:
+            return False                    # piecewise data are paired with the matching number of breaks
+        if case['tref'] == 'b1' and nb == 0:
+            return False
+    return True
+
+
+def _forms_cases(fam, tier):
+    """quick: every case within 2 deviations of the default + the complete product of the four new
+    coordinates (source x row order x container x second call); thorough: 3 deviations + the complete
+    product of those four with the T_mid form."""
+    al = _forms_alphabet(fam)
+    default = default_forms_case(fam)
+    default['lat'] = 0
+    level = 3 if tier == 'thorough' else 2
+    cases = _deviations(default, al, level)
+    prod = ['src', 'order', 'cont', 'second'] + (['tmid'] if tier == 'thorough' else [])
+    for vals in itertools.product(*[al[c_] for c_ in prod]):
+        d = dict(default)
+        d.update(dict(zip(prod, vals)))
+        cases.append(d)
+    seen, out = set(), []
+    for d in cases:
+        d = dict(d)
+        lat = FORM_LATTICES[d.pop('lat')]
+        d['win'], d['n_T'] = [lat[0], lat[1]], lat[2]
+        k = repr(sorted(d.items()))
+        if k in seen or not _valid_forms(d):
+            continue
+        seen.add(k)
+        out.append(d)
+    return out
+
+
+def _mforms_alphabet(fam):
+    al = dict(species=MFORM_SPECIES, win=[list(w) for w in MFORM_WINDOWS], n_T=[50, 15], argtype=MFORM_ARGTYPES,
+              tmid=MFORM_TMID[fam], second=MFORM_SECOND)
+    if fam == 'SH':
+        al['units'] = UNITS
+    if fam == 'N9':
+        al['n_interval'] = [2, 1, 3]
+        al['fit_T_mid'] = [False, True]
+    return al
+
+
+def _valid_mforms(case):
+    if case['fam'] == 'N9':
+        if case['tmid'] in ('scalar', 'int') and case['n_interval'] != 2:
+            return False                    # a scalar names exactly one break
+    return True
+
+
+def _mforms_cases(fam, tier):
+    al = _mforms_alphabet(fam)
+    default = default_mforms_case(fam)
+    cases = _deviations(default, al, 3 if tier == 'thorough' else 2)
+    return [d for d in cases if _valid_mforms(d)]
+
+
 def _all_cases(part, fam, tier):
-    return _data_cases(fam, tier) if part == 'data' else _model_cases(fam, tier)
+    return {'data': _data_cases, 'model': _model_cases, 'forms': _forms_cases,
+            'mforms': _mforms_cases}[part](fam, tier)
 
 
 # shard counts proportional to the measured cost of each part (cases are dealt round-robin)
 N_SHARDS = {'quick': {('data', 'N7'): 12, ('data', 'N9'): 4, ('data', 'SH'): 3,
-                      ('model', 'N7'): 2, ('model', 'SH'): 4, ('model', 'N9'): 9},
+                      ('model', 'N7'): 2, ('model', 'SH'): 4, ('model', 'N9'): 9,
+                      ('forms', 'N7'): 4, ('forms', 'N9'): 4, ('forms', 'SH'): 4,
+                      ('mforms', 'N7'): 2, ('mforms', 'SH'): 2, ('mforms', 'N9'): 6},
             'thorough': {('data', 'N7'): 20, ('data', 'N9'): 8, ('data', 'SH'): 16,
-                         ('model', 'N7'): 3, ('model', 'SH'): 14, ('model', 'N9'): 35}}
+                         ('model', 'N7'): 3, ('model', 'SH'): 14, ('model', 'N9'): 35,
+                         ('forms', 'N7'): 16, ('forms', 'N9'): 16, ('forms', 'SH'): 16,
+                         ('mforms', 'N7'): 6, ('mforms', 'SH'): 6, ('mforms', 'N9'): 24}}
 
 
 def shards(tier):
@@ -765,13 +1336,34 @@ def bounds(tier):
             deviation_level=('2 around (H2O, 298.15-1000 K, n_T=50, T_mid None); NASA-9: level 1 plus the '
                              'pairs that involve n_interval / T_mid / fit_T_mid') if q else 'full product',
             cases={f: len(_model_cases(f, tier)) for f in ('N7', 'N9', 'SH')}),
+        histories_from_data=dict(
+            steps=['fit 1', 'fit 2 from the same objects (same call / other reference / other option)',
+                   'fit 1 looked at again', 'results overwritten', 'CpoR += 1 in place', 'fit 3'],
+            tables=FORM_LATTICES, row_orders=ORDERS, containers=CONTAINERS, second_call=SECOND_CALLS,
+            sources=FORM_SRC, T_mid_forms=FORM_TMID, T_ref_positions=FORM_TREF, T_ref_types=TREF_TYPES,
+            product=('source x row order x container x second call complete; everything else within 2 '
+                     'deviations of the default') if q else
+                    ('source x row order x container x second call x T_mid form complete; everything else '
+                     'within 3 deviations'),
+            lattice_points=N_LATTICE_FORMS,
+            cases={f: len(_forms_cases(f, tier)) for f in ('N7', 'N9', 'SH')}),
+        histories_from_model=dict(
+            steps=['fit 1', 'fit 2 (same call / next species / next window)', 'fit 1 looked at again',
+                   'results overwritten', 'fit 3 (first call again)'],
+            species=MFORM_SPECIES, windows=MFORM_WINDOWS, bound_types=MFORM_ARGTYPES, T_mid_forms=MFORM_TMID,
+            second_call=MFORM_SECOND, deviation_level=2 if q else 3,
+            cases={f: len(_mforms_cases(f, tier)) for f in ('N7', 'N9', 'SH')}),
         lattice_points=N_LATTICE)
 
 
 def run_shard(shard, ctx):
     cases = _all_cases(shard['part'], shard['fam'], shard['tier'])
     for case in cases[shard['k']::shard['n']]:
-        ctx.run_case(check_case, case, _sig_data(case) if case['part'] == 'data' else _sig_model(case))
+        if case['part'] in ('forms', 'mforms'):
+            run_sig = _RUN_SIG              # kept current by the history (which step is running)
+        else:
+            run_sig = _sig_data(case) if case['part'] == 'data' else _sig_model(case)
+        ctx.run_case(check_case, case, run_sig)
         ctx.sample(case, limit=1)
 
 
@@ -779,10 +1371,8 @@ def check_case(case, ctx):
     import warnings
     with warnings.catch_warnings():
         warnings.simplefilter('ignore')
-        if case['part'] == 'data':
-            _eval_data_case(case, ctx)
-        else:
-            _eval_model_case(case, ctx)
+        {'data': _eval_data_case, 'model': _eval_model_case, 'forms': _eval_forms_case,
+         'mforms': _eval_mforms_case}[case['part']](case, ctx)
 
 
 LEVEL_TEXT = ('Bounded exhaustive exploration of the real fitting code: the complete product family x generating '
@@ -790,8 +1380,12 @@ LEVEL_TEXT = ('Bounded exhaustive exploration of the real fitting code: the comp
               '(quick: 2, thorough: full) product over StatMech / constant-Cp / zero-Cp species for from_model; every '
               'fitted object is walked over a 101-point lattice plus both neighbours of each break. Anchor, '
               'continuity and bounds are decided on every case, reproduction against closed-form integrals of the '
-              'generating polynomials, tracking against the source model.')
+              'generating polynomials, tracking against the source model. Call histories on caller-owned data '
+              '(row order x container / dtype x source x second call complete, the rest deviation-bounded): '
+              'the table and the model are left as they were, a second fit from the very same objects and a fit '
+              'after an in-place edit are judged by the same oracles, results are fresh containers.')
 LEVEL_NOTE = ('Finite alphabets (13 windows, n_T 15/50/200, listed sources); StatMech tracking is judged against the '
               'residual of an independent least-squares fit of the same form (factor 50/12/7 by n_T); Shomate reproduction tolerance 1e-6 because '
-              'its Cp fit is iterative; reproduction is not demanded of under-determined NASA-9 segments (< 7 points).')
+              'its Cp fit is iterative; reproduction is not demanded of under-determined NASA-9 segments (< 7 points). '
+              'Histories: 3 integer-valued tables, 7 row orders, 4 containers, 3 kinds of second call, 25-point lattice.')
 TECHNIQUE = 'deviation-bounded product enumeration + lattice walk on the implementation, closed-form reference oracle'
